@@ -49,6 +49,7 @@ func c01Layers(thorough bool, builtinNames []string, emit c01Emit) map[string]an
 	c01L4(thorough, builtinNames, e, b)
 	c01L5(thorough, e, b)
 	c01L6(thorough, e, b)
+	c01L7(thorough, e, b)
 	c01L3(thorough, e, b, &stop)
 	return b
 }
@@ -806,6 +807,9 @@ func c01L6(thorough bool, e func(func() c01Case), b map[string]any) {
 				bl(sDecl("x", nInt(1)), sIf(nBool(true), bl(sDecl("r", nCall("g", nInt(7))), sRet(nArr(xv, nVar("r"))))), sRet(nInt(-1))),
 				bl(sDecl("x", nInt(1)), sDecl("t", nInt(2)), sDecl("r", nCall("g", nInt(7))), sRet(nArr(xv, nVar("t"), nVar("r")))),
 				bl(sFor([]string{"x"}, nArr(nInt(1), nInt(2)), bl(sDecl("r", nCall("g", nInt(7))), sIf(nBin("!=", xv, nInt(1)), bl(sRet(nArr(xv, nVar("r"))))))), sRet(nInt(-1))),
+				// the same callee reached through the pipe form of a call
+				bl(sDecl("x", nInt(1)), sDecl("r", nPipe("g", nInt(7))), sRet(nArr(xv, nVar("r")))),
+				bl(sDecl("x", nInt(1)), sDecl("t", nInt(2)), sRet(nArr(nPipe("g", nInt(7)), xv, nVar("t")))),
 			}
 			for _, ctx := range ctxs {
 				e(func() c01Case {
@@ -1057,5 +1061,58 @@ func c01L6(thorough bool, e func(func() c01Case), b map[string]any) {
 			n++
 		}
 	}
-	b["L6_scoping_aliasing"] = fmt.Sprintf("callee/caller locals (8 bodies × 2 signatures × 5 call contexts), writes to module-level names (7 forms × 3 positions × 3 observations, same request and next request, also through a callee), path parameter and implicit variables, 3-level declaration/update/read placement × 2 update forms × 4 block kinds, all sequences of ≤ %d operations over an 11-operation array-aliasing alphabet and an 8-operation object alphabet, index-assignment forms: %d cases", maxLen, n)
+	b["L6_scoping_aliasing"] = fmt.Sprintf("callee/caller locals (8 bodies × 2 signatures × 7 call contexts, call and pipe form), writes to module-level names (7 forms × 3 positions × 3 observations, same request and next request, also through a callee), path parameter and implicit variables, 3-level declaration/update/read placement × 2 update forms × 4 block kinds, all sequences of ≤ %d operations over an 11-operation array-aliasing alphabet and an 8-operation object alphabet, index-assignment forms: %d cases", maxLen, n)
+}
+
+// ---- L7: determinism of object iteration ---------------------------------------------
+
+// Every construct of the language that walks the keys of an object (keys(o),
+// o.keys(), o |> keys, for k, v in o, for v in o, nested and through keys())
+// × objects of 2, 3 (thorough: 4 and 9) keys × the object coming from a
+// literal or from the request body.  Which order is used is not documented and
+// not judged; that the outcome is the same on every execution is (c01Judge,
+// orderLayer).  Two order-independent programs are controls.
+func c01L7(thorough bool, e func(func() c01Case), b map[string]any) {
+	n := 0
+	sizes := []int{2, 3}
+	if thorough {
+		sizes = []int{2, 3, 4, 9}
+	}
+	names := []string{"a", "b", "c", "d", "e", "f", "g", "h", "i"}
+	ov := nVar("o")
+	acc := func(name string, el *c01N) *c01N { return sSet(name, nBin("+", nVar(name), nArr(el))) }
+	forms := [][]*c01N{
+		bl(sRet(nCall("keys", ov))),
+		bl(sRet(nCall("o.keys"))),
+		bl(sRet(nPipe("keys", ov))),
+		bl(sDecl("ks", nArr()), sFor([]string{"k", "v"}, ov, bl(acc("ks", nVar("k")))), sRet(nVar("ks"))),
+		bl(sFor([]string{"k", "v"}, ov, bl(sRet(nVar("k")))), sRet(nStr("none"))),
+		bl(sDecl("vs", nArr()), sFor([]string{"v"}, ov, bl(acc("vs", nVar("v")))), sRet(nVar("vs"))),
+		bl(sDecl("ks", nArr()), sFor([]string{"k"}, nCall("keys", ov), bl(acc("ks", nVar("k")))), sRet(nVar("ks"))),
+		bl(sDecl("ks", nArr()), sFor([]string{"k", "v"}, ov, bl(sFor([]string{"m", "w"}, ov, bl(acc("ks", nBin("+", nVar("k"), nVar("m"))))))), sRet(nVar("ks"))),
+		bl(sDecl("ks", nArr()), sFor([]string{"k", "v"}, ov, bl(sIf(nBin("!=", nVar("k"), nStr("a")), bl(sContinue())), acc("ks", nVar("k")), sBreak())), sRet(nVar("ks"))),
+		// controls: independent of the order
+		bl(sRet(nCall("length", nCall("keys", ov)))),
+		bl(sDecl("t", nStr("")), sFor([]string{"k", "v"}, ov, bl(sIf(nBin("==", nVar("k"), nStr("a")), bl(sSet("t", nVar("k")))))), sRet(nVar("t"))),
+	}
+	for _, size := range sizes {
+		lit := &c01N{K: "obj"}
+		bod := &c01N{K: "obj"}
+		for i := 0; i < size; i++ {
+			lit.Ss = append(lit.Ss, names[i])
+			lit.C = append(lit.C, nInt(int64(i+1)))
+			bod.Ss = append(bod.Ss, names[i])
+			bod.C = append(bod.C, nStr(names[i]+"x"))
+		}
+		for _, f := range forms {
+			e(func() c01Case {
+				return c01Case{Layer: "L7", P: "a", Prog: prog1(append(bl(sDecl("o", lit)), f...)...)}
+			})
+			e(func() c01Case {
+				return c01Case{Layer: "L7", P: "a", Body: bod, Prog: prog1(append(bl(sDecl("o", inputB())), f...)...)}
+			})
+			n += 2
+		}
+	}
+	b["L7_object_iteration_determinism"] = fmt.Sprintf("%d key-walking forms (keys(o), o.keys(), o |> keys, for k,v / for v over the object, for over keys(o), nested, continue/break, 2 order-independent controls) × objects of %v keys × {literal, request body}, each executed %d times on fresh interpreters + once more on a reused one: %d programs", len(forms), sizes, c01OrderRuns, n)
 }
